@@ -17,7 +17,6 @@ from happysimulator.core.event import (
     Event,
     _active_debugger_context,
     _advance_event_counter,
-    reset_event_counter,
 )
 from happysimulator.core.event_heap import EventHeap
 from happysimulator.core.protocols import Simulatable
@@ -76,7 +75,11 @@ class Simulation:
         fault_schedule: "FaultSchedule | None" = None,
         duration: float | None = None,
     ):
-        reset_event_counter()
+        # The global event counter is deliberately NOT reset here: events created
+        # before this constructor runs (and scheduled afterwards) must keep sort
+        # indices lower than events created later, or equal-timestamp ties would
+        # be delivered out of creation order, in an order that depends on how many
+        # events earlier simulations in this process happened to create.
 
         if duration is not None and end_time is not None:
             raise ValueError("Cannot specify both 'duration' and 'end_time'")
